@@ -40,8 +40,14 @@ def cases(rng, tier):
         N = rng.choice([1, 2, 2, 3])
         shape = [rng.randint(2, 4) for _ in range(N)]
         leaves, masks = [], []
-        for _ in range(rng.randint(2, 3)):
-            t = gen_tensor(rng, shape, rmax=2, stream="float")
+        for li in range(rng.randint(2, 3)):
+            if li > 0 and rng.random() < 0.3:
+                # two models in one basis: same format and Tucker factors (equal numbers, separate parameters), fresh cores
+                t0 = PT.from_json(leaves[0])
+                t = PT([np.array([rng.gauss(0, 1) for _ in range(c.size)]).reshape(c.shape) for c in t0.cores],
+                       [None if U is None else np.array(U, dtype=np.float64).copy() for U in t0.Us])
+            else:
+                t = gen_tensor(rng, shape, rmax=2, stream="float")
             leaves.append(t.to_json())
             masks.append([[rng.random() < 0.6 for _ in range(N)], [rng.random() < 0.6 for _ in range(N)]])
         masks[0][0][0] = True
